@@ -641,6 +641,14 @@ class MailExecutor(UnitsExecutor):
 
     # --------------------------------------------------------- str / bytes methods --
     def call_method(self, st, obj, name, args, kwargs, node):
+        if isinstance(obj, VExt) and self.schema(obj.sort) is not None:
+            mod = self.class_module(obj.sort)
+            fn = self.find_method(mod, obj.sort, name) if mod is not None else None
+            if fn is not None and any(ast.unparse(d) in ("staticmethod", "classmethod") for d in fn.decorator_list) \
+                    and self.reg.get(f"{mod.rel}::{obj.sort}.{name}") is None and (obj.sort, name) not in self.OPAQUE:
+                is_cls = any(ast.unparse(d) == "classmethod" for d in fn.decorator_list)
+                env = self.bind_params(fn, args, kwargs, node, self_val=VType(obj.sort) if is_cls else None)
+                return self.run_in(mod, st, fn, env)
         if isinstance(obj, VOpt):
             st2 = self.fork_raise(st, obj.none, "AttributeError")
             if st2 is None:
@@ -961,7 +969,49 @@ class MailExecutor(UnitsExecutor):
         return out
 
     # ------------------------------------------------------------ dispatch (router) --
+    # modules whose private helpers without a contract are SUMMARISED (not executed): a deterministic function of the arguments,
+    # result kind from the return annotation; which helper it is does not matter to the clauses that read the result (they look
+    # at the arguments and at "same helper for every field"), so renaming / re-implementing a helper re-verifies
+    SUMMARISE = (MSG,)
+
+    def summarise_call(self, st, f, args, kwargs, node):
+        from pyvc import loader as _l
+        if f.a not in self.SUMMARISE or self.reg.get(f"{f.a}::{f.b}") is not None or "." in f.b or not f.b.startswith("_") or kwargs:
+            return None
+        fnode = _l.module(f.a, self.module.repo).functions.get(f.b)
+        if fnode is None or fnode.returns is None:
+            return None
+        terms, sorts = [], []
+        for a in args:
+            if isinstance(a, VOpt) and isinstance(a.val, VStr):
+                terms += [a.none, a.val.t]
+                sorts += [B, S]
+            elif isinstance(a, (VStr, VExt)):
+                terms.append(a.t)
+                sorts.append(a.t.sort())
+            else:
+                return None
+        ann = ast.unparse(fnode.returns)
+        name = f"helper:{f.b}"
+        self.exc_any(st.fork(), f"{self.loc(node)} helper {f.b}")
+        if ann == "str":
+            return [(st, VStr(z3.Function(name, *sorts, S)(*terms)))]
+        if ann == "bool":
+            return [(st, VBool(z3.Function(name, *sorts, B)(*terms)))]
+        m = __import__("re").fullmatch(r"(?:list|List)\[(\w+)\]", ann)
+        if m and self.schema(m.group(1)) is not None:
+            cls = m.group(1)
+            n = z3.Function(name + ".len", *sorts, I)(*terms)
+            at = z3.Function(name + ".at", *sorts, I, ext_sort(cls))
+            st.assume(n >= 0)
+            return [(st, VSeq(n, lambda k: VExt(cls, at(*terms, k)), ("obj", cls), tag=("helper", f.b, tuple(terms), tuple(sorts))))]
+        return None
+
     def call(self, st, f, args, kwargs, node):
+        if isinstance(f, VFunc) and f.how == "repo":
+            r = self.summarise_call(st, f, args, kwargs, node)
+            if r is not None:
+                return r
         if isinstance(f, VUnk) and any(isinstance(a, VExt) and a.sort == "BytesIO" for a in args):
             # an unknown callable is handed an attachment stream: recorded as a dispatch to an unknown extractor
             f = VTuple([VStr(z3.String(fresh_name("unknown_module"))), VStr(z3.String(fresh_name("unknown_function")))])
@@ -1012,9 +1062,11 @@ class MailExecutor(UnitsExecutor):
         def is_tag(t):
             return z3.is_const(t) and t.decl().kind() == z3.Z3_OP_UNINTERPRETED and str(t).startswith("__havoc__@")
 
-        def outcomes(k):
+        def outcomes(k, raising=False):
             """-> (keep Bool term, [facts of the filter], [(conditions, value, state)])"""
             s = snap.fork()
+            if raising:
+                s.assume(z3.And(k >= 0, k < length))
             s.frames.append(Frame({}, len(s.frames) - 1, s.frame.fnode))
             npc = len(s.pc)
             self.sinks.append([])
@@ -1038,8 +1090,10 @@ class MailExecutor(UnitsExecutor):
                 res = [(list(s3.pc[npc2:]), v, s3) for (s3, v) in self.ev(elt_nodes[0], s1)]
             finally:
                 sink = self.sinks.pop()
-            if sink:
-                raise Unsupported(f"{self.loc(n)} comprehension element may raise")
+            if raising:
+                for (es, exc) in sink:       # an element that raises for some index in range is an exceptional path of the comprehension
+                    es.frames.pop()
+                    self.raise_in(es, exc)
             if not res:
                 raise Unsupported(f"{self.loc(n)} comprehension element has no normal outcome")
             return keep_t, pre, res
@@ -1060,17 +1114,54 @@ class MailExecutor(UnitsExecutor):
 
         J = z3.Int(fresh_name("j!comp"))
         in_range = z3.And(J >= 0, J < length)
-        keepJ, preJ, resJ = outcomes(J)
-        # facts / tags
+        from pyvc import values as _values
+        first_fresh = next(_values._fresh)
+        keepJ, preJ, resJ = outcomes(J, raising=True)
+        sk_cache = {}
+
+        def skolem(t):
+            """constants created while evaluating at index J (fresh strings, library objects) become functions of the index, so
+            that what is learnt about them can be stated for every index"""
+            if isinstance(t, bool):
+                return t
+            subs = []
+            seen, stack = set(), [t]
+            while stack:
+                x = stack.pop()
+                if x.get_id() in seen:
+                    continue
+                seen.add(x.get_id())
+                if z3.is_quantifier(x):
+                    stack.append(x.body())
+                    continue
+                if z3.is_app(x):
+                    if x.num_args() == 0 and x.decl().kind() == z3.Z3_OP_UNINTERPRETED and not x.eq(J):
+                        nm = x.decl().name()
+                        tail = nm.rsplit("!", 1)[-1]
+                        if "!" in nm and tail.isdigit() and int(tail) > first_fresh and x.sort() != z3.BoolSort():
+                            if nm not in sk_cache:
+                                sk_cache[nm] = z3.Function(nm + "@j", I, x.sort())
+                            subs.append((x, sk_cache[nm](J)))
+                    stack.extend(x.children())
+            return z3.substitute(t, *subs) if subs else t
+        rng = z3.And(J >= 0, J < length)
+        preJ = [c for c in preJ if not c.eq(rng)]
+        # tags of over-approximated (unmodelled) steps taken while evaluating the element mark the whole path
         tags = [c for (conds, _v, _s) in resJ for c in conds if is_tag(c)] + [c for c in preJ if is_tag(c)]
         for t in dict((str(t), t) for t in tags).values():
             st.assume(t)
-        facts = [c for c in preJ if not is_tag(c)]
-        if len(resJ) == 1:
-            facts += [z3.Implies(keepJ, c) for c in resJ[0][0] if not is_tag(c)]
-        if facts:
-            st.assume(z3.ForAll([J], z3.Implies(in_range, z3.And(facts))))
+        pre_facts = [skolem(c) for c in preJ if not is_tag(c)]
+        if pre_facts:
+            st.assume(z3.ForAll([J], z3.Implies(in_range, z3.And(pre_facts))))
+        # The element at index J is given by Skolem function(s) of J; what is known: for every index in range that is kept,
+        # ONE of the evaluation's outcomes was taken -- its path conditions / assumed facts hold and the element is its value.
         sample, s_sample = resJ[0][1], resJ[0][2]
+
+        def scalar_eq(fn_term, v):
+            if isinstance(v, VOpt):
+                raise Unsupported(f"{self.loc(n)} optional comprehension element")
+            return ops.eq_term(X._val(X.ekind_of_value(v), fn_term), v) if not isinstance(v, VExt) else fn_term == v.t
+
         if isinstance(sample, VRef):
             o = s_sample.obj(sample.ref)
             sch = self.schema(o.cls) if o.kind == "obj" and o.cls else None
@@ -1078,37 +1169,45 @@ class MailExecutor(UnitsExecutor):
                 raise Unsupported(f"{self.loc(n)} comprehension element is a heap object without schema")
             cls = o.cls
             ef = z3.Function(fresh_name(f"comp_{cls}"), I, ext_sort(cls))
-            ffacts = []
-            for f, kind in sch.items():
-                if kind in ("str", "int", "bool"):
-                    try:
-                        cur = merge(resJ, lambda v, s3, f=f: self.unwrap(s3, s3.obj(v.ref).data.get(f)))
-                    except (Unsupported, AttributeError):
-                        continue
-                    if isinstance(cur, (VStr, VInt, VBool)):
-                        ffacts.append(ops.eq_term(X._val(kind, fld(cls, f, X._sort_of_kind(kind))(ef(J))), cur))
-            if ffacts:
-                st.assume(z3.ForAll([J], z3.Implies(z3.And(in_range, keepJ), z3.And(ffacts)), patterns=[ef(J)]))
+            pat = ef(J)
+            disj = []
+            for (conds, v, s3) in resJ:
+                eqs = []
+                for f, kind in sch.items():
+                    cur = self.unwrap(s3, s3.obj(v.ref).data.get(f))
+                    if kind in ("str", "int", "bool") and isinstance(cur, (VStr, VInt, VBool)):
+                        eqs.append(ops.eq_term(X._val(kind, fld(cls, f, X._sort_of_kind(kind))(ef(J))), cur))
+                    elif isinstance(kind, tuple) and kind[0] == "obj" and isinstance(cur, VExt) and cur.sort == kind[1]:
+                        eqs.append(fld(cls, f, ext_sort(kind[1]))(ef(J)) == cur.t)
+                disj.append(skolem(z3.And([c for c in conds if not is_tag(c)] + eqs + [z3.BoolVal(True)])))
             ekind = ("obj", cls)
 
             def el(k, ef=ef, cls=cls):
                 return VExt(cls, ef(k))
-        elif isinstance(sample, (VStr, VInt, VBool, VExt)):
-            mergedJ = merge(resJ, lambda v, s3: v)
-            ekind = X.ekind_of_value(mergedJ)
+        elif isinstance(sample, (VStr, VInt, VBool, VExt)) and all(type(v) is type(sample) or (isinstance(v, VStr) and isinstance(sample, VStr)) for (_c, v, _s) in resJ):
+            ekind = X.ekind_of_value(sample)
+            es_ = X._sort_of_kind(ekind)
+            if es_ is None:
+                raise Unsupported(f"{self.loc(n)} comprehension element of unsupported kind")
+            ef = z3.Function(fresh_name("comp_elem"), I, es_)
+            pat = ef(J)
+            disj = [skolem(z3.And([c for c in conds if not is_tag(c)] + [scalar_eq(ef(J), v)])) for (conds, v, _s3) in resJ]
 
-            def el(k):
-                _k, _p, res = outcomes(k)
-                return merge(res, lambda v, s3: v)
-        elif isinstance(sample, VTuple):
-            mergedJ = merge(resJ, lambda v, s3: v)
+            def el(k, ef=ef, ekind=ekind):
+                return X._val(ekind, ef(k))
+        elif isinstance(sample, VTuple) and all(isinstance(v, VTuple) and len(v.items) == len(sample.items) for (_c, v, _s) in resJ) \
+                and all(isinstance(x, (VStr, VInt, VBool, VExt)) for x in sample.items):
+            kinds = [X.ekind_of_value(x) for x in sample.items]
+            efs = [z3.Function(fresh_name(f"comp_elem{i}"), I, X._sort_of_kind(kd)) for i, kd in enumerate(kinds)]
+            pat = efs[0](J)
+            disj = [skolem(z3.And([c for c in conds if not is_tag(c)] + [scalar_eq(e_(J), x) for e_, x in zip(efs, v.items)])) for (conds, v, _s3) in resJ]
             ekind = "tuple"
 
-            def el(k):
-                _k, _p, res = outcomes(k)
-                return merge(res, lambda v, s3: v)
+            def el(k, efs=efs, kinds=kinds):
+                return VTuple([X._val(kd, e_(k)) for e_, kd in zip(efs, kinds)])
         else:
             raise Unsupported(f"{self.loc(n)} comprehension element {sample!r}")
+        st.assume(z3.ForAll([J], z3.Implies(z3.And(in_range, skolem(keepJ)), z3.Or(disj)), patterns=[pat]))
         if not g.ifs:
             return st, VSeq(length, el, ekind, tag=("map", length, el))
         # filtered: an order-preserving sub-sequence, described by (source length, keep, element); its own length / elements are
